@@ -935,7 +935,7 @@ def probe_f1(c, clause="tone"):
             dev = float(np.abs(y[q:3 * q] - 1.0).max()) if q else 0.0
             if dev > 2.0 ** (1 - bits):
                 return "%s [plan %s]: a constant 1.0 comes out off by up to %.3g (bound 2^(1-bits) = %.3g)" % (cfg_label(c), plan_signature(info), dev, 2.0 ** (1 - bits))
-            return None
+            # the constant survives: fall through to the in-band tone (x -> y is not the linear, shift-covariant map of the model)
         t = tone_job(c, 0.43 * info["q"]["pb"] * min(1.0, 1.0 / ratio), amp=0.9, nfit=6000, kind="pass")
         if "resid" in t and (t["resid"] > 2.0 ** (1 - bits) or (clause == "image" and t["image"] > 2.0 ** -bits)):
             return ("%s [plan %s]: in-band tone at %.4f x input Nyquist: gain %.2f dB, fit residual %.3g, strongest image line %.3g (bounds 2^(1-bits) = %.3g, "
